@@ -18,7 +18,7 @@ type c11Case struct {
 	Query  rtree.Box   `json:"query"`
 	Op     string      `json:"op"`     // range | priority
 	StopAt int         `json:"stopAt"` // -1: never
-	Kind   int         `json:"kind"`   // 0 Stop, 1 wrapped Stop, 2 error, 3 wrapped error
+	Kind   int         `json:"kind"`   // 0 Stop, 1 wrapped Stop, 2 error, 3 wrapped error, 4 errors.Join(error, Stop), 5 two %w, 6 doubly wrapped Stop
 }
 
 func refOverlap(a, b rtree.Box) bool {
@@ -64,9 +64,18 @@ func c11Ret(kind int) error {
 		return fmt.Errorf("wrapped: %w", rtree.Stop)
 	case 2:
 		return errBoom
+	case 4: // Stop joined with another error (multi-error wrapper)
+		return errors.Join(errBoom, rtree.Stop)
+	case 5: // two %w verbs
+		return fmt.Errorf("%w after %w", errBoom, rtree.Stop)
+	case 6: // wrapped twice
+		return fmt.Errorf("outer: %w", fmt.Errorf("inner: %w", rtree.Stop))
 	}
 	return fmt.Errorf("wrapped: %w", errBoom)
 }
+
+// c11StopLike: the kinds that wrap Stop in the sense of errors.Is (the library documents "Stop may be wrapped").
+func c11StopLike(kind int) bool { return kind < 2 || kind >= 4 }
 
 type c11Tree struct {
 	family string
@@ -222,8 +231,11 @@ func c11Query(r *engine.Run, t *c11Tree, q rtree.Box, allK bool) {
 		if m >= 2 {
 			r.Nontrivial(fmt.Sprintf("%s/%d/%v/%s", t.family, len(t.boxes), q, op))
 		}
-		for _, k := range ks {
-			for kind := 0; kind < 4; kind++ {
+		for ki, k := range ks {
+			for kind := 0; kind < 7; kind++ {
+				if kind >= 4 && ki > 1 && ki < len(ks)-1 {
+					continue // the multi-error wrappers at the first two and the last stop positions
+				}
 				v2, after, ret, sent := t.search(q, op, k, kind)
 				r.Transitions.Add(1)
 				r.Evaluations.Add(1)
@@ -241,7 +253,7 @@ func c11Query(r *engine.Run, t *c11Tree, q rtree.Box, allK bool) {
 						}
 					}
 				}
-				if kind < 2 {
+				if c11StopLike(kind) {
 					if ret != nil {
 						r.Violation("C11/"+op+".stopNotNil", "search", c, fmt.Sprint(ret))
 					}
@@ -415,6 +427,27 @@ var c11Families = []c11Family{
 		}
 		return o
 	}},
+	{"magnitudes-1e-162", func(n int) []rtree.Box {
+		// distances k·1e-162 .. : their squares are subnormal (a few significant bits), so a key that
+		// goes through the square cannot tell 2.0e-162 from 2.3e-162
+		var o []rtree.Box
+		for i := 0; i < n; i++ {
+			x := 1e-162 * (2 + 0.3*float64((i*5)%(n+1)))
+			y := 1e-162 * float64(i%2)
+			o = append(o, rtree.Box{MinX: x, MinY: y, MaxX: x, MaxY: y})
+		}
+		return o
+	}},
+	{"magnitudes-1e153", func(n int) []rtree.Box {
+		// squares just below overflow: sums of two of them overflow
+		var o []rtree.Box
+		for i := 0; i < n; i++ {
+			x := 1e153 * (9 + 0.5*float64((i*3)%(n+1)))
+			y := 1e153 * (9 + float64(i%4))
+			o = append(o, rtree.Box{MinX: x, MinY: y, MaxX: x, MaxY: y})
+		}
+		return o
+	}},
 	{"extreme-1e300", func(n int) []rtree.Box {
 		var o []rtree.Box
 		for i := 0; i < n; i++ {
@@ -470,7 +503,7 @@ func c11Queries(boxes []rtree.Box, perItem int) []rtree.Box {
 }
 
 func c11Main(r *engine.Run) {
-	r.Rule = "trees = every multiset of ≤k lattice boxes (corners in {0..3}², incl. points/lines) and 16 layout families at every size 0..40 plus fan-out boundary sizes; queries = lattice boxes over the extent, enclosing, far, each item's own box and edge/corner-touching boxes; callback scripts = continue^j·X for every j (sampled positions for visit lists > 12 on big trees) and X ∈ {Stop, wrapped Stop, error, wrapped error}. states = trees, transitions = searches. non-trivial = (tree, query, op) with ≥ 2 visits (so a stop precedes the last match)"
+	r.Rule = "trees = every multiset of ≤k lattice boxes (corners in {0..3}², incl. points/lines) and 18 layout families at every size 0..40 plus fan-out boundary sizes; queries = lattice boxes over the extent, enclosing, far, each item's own box and edge/corner-touching boxes; callback scripts = continue^j·X for every j (sampled positions for visit lists > 12 on big trees) and X ∈ {Stop, wrapped Stop, error, wrapped error, errors.Join(error, Stop), two-%w wrapper, doubly wrapped Stop}. states = trees, transitions = searches. non-trivial = (tree, query, op) with ≥ 2 visits (so a stop precedes the last match)"
 	lat := c11LatticeBoxes(4)
 	// (i) all multisets of ≤ k lattice boxes; queries = all lattice boxes
 	k := 2
@@ -548,7 +581,7 @@ func c11Main(r *engine.Run) {
 		}
 	})
 	if done {
-		r.Bound(fmt.Sprintf("16 layout families × every size 0..40 and sizes %v", big))
+		r.Bound(fmt.Sprintf("18 layout families × every size 0..40 and sizes %v", big))
 	}
 	r.Sample("search", c11Case{Family: "staircase-overlap", N: 17, Query: rtree.Box{MinX: 0, MinY: 0, MaxX: 4, MaxY: 4}, Op: "priority", StopAt: 3, Kind: 0})
 }
